@@ -462,7 +462,9 @@ def check_args(ctx, r, rid="R0"):
     lits = [("name", C("String", S("Bob"), MAXV)), ("zip", C("String", S("01234"), MAXV)), ("version", C("String", S("1.10"), MAXV)), ("plus", C("String", S("+33"), MAXV)),
             ("exp", C("String", S("1e3"), MAXV)), ("neg", C("String", S("-7"), MAXV)), (" spaced ", C("String", S(" padded "), MAXV)), ("inner", C("String", S("dear {{ who }}"), MAXV)), ("tagged", C("String", S("<b>World</b>"), MAXV)),
             ("tagged_var", C("String", S("<i>{{ who }}</i>!"), MAXV)),
-            ("n", C("Unsigned", I(3))), ("m", C("Signed", I(-2))), ("flag", C("Bool", B(True))), ("ratio", C("Float", A("float:2.5")))]
+            ("n", C("Unsigned", I(3))), ("m", C("Signed", I(-2))), ("flag", C("Bool", B(True))), ("ratio", C("Float", A("float:2.5"))),
+            # a variable may be spelled with a dash (`{{ user-name }}`): populate matches the argument on the variable's *name*, dash included
+            ("user-name", C("String", S("Ann"), MAXV)), ("Shout", C("String", S("X"), MAXV))]
 
     def mk():
         ev = AEval(funcs=funcs, builtins={"unwrap_at": lambda rv, a: rv[2][0] if rv[0] == "ctor" and rv[2] else rv})
